@@ -27,6 +27,9 @@ type HCase struct {
 	Shape string  `json:"shape,omitempty"` // generator's placement of the configuration steps (statistics only)
 	NoFwd bool    `json:"nofwd"`
 	Steps []RStep `json:"steps"`
+	// Conc: parameters of the "concreg" step (sub-command c16conc, conc.go): the hooks are registered
+	// while network instances are created
+	Conc *ConcSpec `json:"conc,omitempty"`
 }
 
 // ---------------------------------------------------------------------------- rendering ygot structs
@@ -423,6 +426,7 @@ func runCase(c HCase) (res runResult) {
 		}
 	}
 	var r *rib.RIB
+	var srv *server.Server // mode server
 	start := 0
 	hookSet, resSet := false, false
 	if c.Mode == "server" {
@@ -446,7 +450,7 @@ func runCase(c HCase) (res runResult) {
 			problem("server.New: %v", err)
 			return
 		}
-		r = s.VerifRIB()
+		r, srv = s.VerifRIB(), s
 		hookSet, resSet = hook, rh
 		start = n
 		for i := 0; i < n; i++ {
@@ -532,6 +536,25 @@ func runCase(c HCase) (res runResult) {
 			case "reshook":
 				r.SetResolvedEntryHook(col.resolved)
 				resSet = true
+			case "concreg":
+				if c.Conc == nil {
+					return
+				}
+				created, cst, probs := concRegister(r, srv, col, *c.Conc)
+				for k, v := range cst {
+					res.Stats[k] += v
+				}
+				for _, p := range probs {
+					problem("step %d (concreg): %s", i, p)
+				}
+				for _, n := range created {
+					lateNI[n] = true
+				}
+				resSet = true
+				if !hookSet {
+					hookSet = true
+					cons = contents()
+				}
 			}
 		}()
 		o.Pend = r.VerifPendingIDs()
